@@ -654,3 +654,41 @@ def te_precedence(ctx, rule, key_suffix):
     ctx.ob(rule, "%s|%s" % (nr.id, key_suffix), "a Transfer-Encoding header takes precedence: the Content-Length used for framing (and reported as body_length) comes from a header only when there is no Transfer-Encoding",
            ok, "%s:%d" % (nr.file, nr.line), "; ".join(detail) or None)
     return lookups, tests, CL
+
+
+
+def header_split_rule(ctx, rule):
+    """Header::from_str splits the line once, at the FIRST colon, and takes the name from the part before it."""
+    facts = ctx.facts
+    f = method(facts, T_FROMSTR, HEADER, "from_str")
+    ctx.touch(f)
+    sp = [(bb, t) for bb, t in f.calls() if call_matches(t, r"<impl str>::(splitn|split_once|split|rsplitn|rsplit_once|rsplit|find|rfind|split_terminator)(::<|$)")]
+    ok = len(sp) == 1 and call_matches(sp[0][1], r"<impl str>::splitn(::<|$)")
+    if ok:
+        cs = arg_consts(f, sp[0][1])
+        ok = cs[1] == 2 and cs[2] == ("char", ":") and any(x == ("arg", 1) for x in origin_walk(f.origin(sp[0][1]["args"][0])))
+    ctx.ob(rule, "%s|split-at-first-colon" % f.id, "a header line is split exactly once, at its first colon (name = everything before it, value = everything after it, colons included)",
+           ok, "%s:%d" % (f.file, f.line), None if ok else "splitting calls: %s" % [(short(call_name(t)), arg_consts(f, t)[1:]) for _, t in sp])
+    return f
+
+
+
+def pool_counter_discipline(ctx, rule):
+    """The pool's worker counters (active_tasks / waiting_tasks) are changed only through the RAII Registration guard
+    (+1 on creation, -1 in Drop, so every exit path including early returns and unwinding gives the count back) and by
+    the pool's own destructor."""
+    facts = ctx.facts
+    reg_new = roles.inherent(facts, REG, "new")
+    reg_drop = method(facts, T_DROP, REG, "drop")
+    td = method(facts, T_DROP, TP, "drop")
+    n = 0
+    for g, bb, t2 in facts.all_calls(lambda t2: call_matches(t2, r"atomic::Atomic(::<usize>|Usize)::(store|fetch_add|fetch_sub|swap|compare_exchange\w*|fetch_update|fetch_max|fetch_min)$")):
+        if g.id in (reg_new.id, reg_drop.id):
+            n += 1
+            ok = (g.id == reg_new.id and t2["name"] == "fetch_add") or (g.id == reg_drop.id and t2["name"] == "fetch_sub")
+            ctx.ob(rule, "counter-write|%s" % g.id, "the registration guard increments on creation and decrements on drop", ok and op_const(t2["args"][1]) == 1, g.loc(bb))
+        elif {"active_tasks", "waiting_tasks"} & arg_origin_fields(g, t2):
+            n += 1
+            ctx.ob(rule, "counter-write|%s" % g.id, "the worker counters are changed only by the RAII registration guard (and the pool's destructor): a manual increment/decrement pair leaks the count on early exits",
+                   g.id == td.id, g.loc(bb))
+    return n
